@@ -170,33 +170,45 @@ def check_tables(prog, rep, m, c):
     conn_ok = len(n.value.args) == 1 and norm(n.value.args[0]) == 'connectivity' or \
         (kw(n.value, 'connectivity') is not None and norm(kw(n.value, 'connectivity')) == 'connectivity')
     rep.add('A3', pub, ENTRY, norm(n), n.lineno, conn_ok, 'the tables must be built for the caller\'s connectivity')
-    ifs = [x for x in f.node.body if isinstance(x, ast.If)]
-    ok = len(ifs) == 1 and norm(ifs[0].test).replace(' ', '') in ('connectivity==8', '8==connectivity')
-    rets = [x for x in f.own_nodes() if isinstance(x, ast.Return)]
-    if not ok or len(rets) != 1 or not isinstance(rets[0].value, ast.Tuple) or len(rets[0].value.elts) != 2:
-        rep.add('A3', f, ENTRY, 'connectivity branch', f.node.lineno, None, '`if connectivity == 8` / `return a, b` not found')
-        return
-
-    def listname(e):
-        if isinstance(e, ast.Call) and short(e) in ('array', 'asarray') and e.args and isinstance(e.args[0], ast.Name):
-            return e.args[0].id
-        return e.id if isinstance(e, ast.Name) else None
-    ret_names = [listname(e) for e in rets[0].value.elts]
-    for label, body, want in (('8', ifs[0].body, UNIT8), ('4', ifs[0].orelse, UNIT4)):
-        tab = {}
-        for s in body:
-            if isinstance(s, ast.Assign) and isinstance(s.targets[0], ast.Name):
-                tab[s.targets[0].id] = const(s.value)
-        ys, xs = tab.get(ret_names[pos_rows]), tab.get(ret_names[pos_cols])
-        good = isinstance(ys, list) and isinstance(xs, list) and len(ys) == len(xs) == len(want) and \
-            set(zip(ys, xs)) == want
-        rep.add('A3', f, ENTRY, '%s-connectivity (row, col) offsets %s' % (label, sorted(zip(ys or [], xs or []))), ifs[0].lineno, good,
+    # the tables are constants: the structure function is evaluated for the two meaningful arguments (consteval.py)
+    from ..consteval import CannotFold, fold_call
+    for label, conn, want in (('8', 8, UNIT8), ('4', 4, UNIT4)):
+        try:
+            res = fold_call(prog, f, [conn])
+            ys, xs = list(res[pos_rows]), list(res[pos_cols])
+            good = len(res) == 2 and len(ys) == len(xs) == len(want) and set(zip(ys, xs)) == want
+            shown = sorted(zip(ys, xs))
+        except (CannotFold, TypeError, IndexError) as e:
+            rep.add('A3', f, ENTRY, '%s-connectivity offsets' % label, f.node.lineno, None, 'the structure function is not a constant table: %s' % e)
+            continue
+        rep.add('A3', f, ENTRY, '%s-connectivity (row, col) offsets %s' % (label, shown), f.node.lineno, good,
                 'the %s-neighbourhood must be exactly the %s unit offsets (row offsets from result %d, column offsets from '
                 'result %d of the structure function)' % (label, len(want), pos_rows, pos_cols))
-    ok = any(isinstance(x, ast.If) and norm(x.test).replace(' ', '') in ('connectivity!=4andconnectivity!=8', 'connectivitynotin(4,8)',
-                                                                          'connectivity!=8andconnectivity!=4', 'connectivitynotin(8,4)')
-             and any(isinstance(y, ast.Raise) for y in x.body) for x in pub.own_nodes())
-    rep.add('A3', pub, ENTRY, 'connectivity validated', pub.node.lineno, ok, 'only 4 and 8 are meaningful')
+    # connectivity validated: the public function raises exactly for values other than 4 and 8
+    from ..wterm import WT, eval_cond
+    w = WT(prog, depth=2)
+    w.run(pub)
+    cparam = 'connectivity' if 'connectivity' in pub.params else None
+    ok = None
+    why = ''
+    if cparam:
+        res = {}
+        for v in (4, 8, 6, 0):
+            hit = False
+            for guards, node in w.raises:
+                # conditions on other arguments (shape, dims, end points inside the raster) are taken as passed
+                vals = []
+                for g in guards:
+                    try:
+                        vals.append(eval_cond(g, {cparam: v}))
+                    except (ValueError, KeyError):
+                        continue
+                if vals and all(vals) and ("('param', '%s')" % cparam) in repr(guards[-1]):
+                    hit = True
+            res[v] = hit
+        ok = res == {4: False, 8: False, 6: True, 0: True}
+        why = 'raises for %s' % sorted(v for v, h in res.items() if h)
+    rep.add('A3', pub, ENTRY, 'connectivity validated', pub.node.lineno, ok, 'only 4 and 8 are meaningful; ' + why)
 
 
 # ------------------------------------------------------------------------------------------------ helpers on kernels
@@ -573,7 +585,13 @@ def check_search(prog, rep, m, c):
         return None
     opens = [s for s in pops if cval(s) is False]
     closes = [s for s in pops if cval(s) is True]
-    uncond = all(len(s.guards) == 1 and s.guards[0] is Lw.test for s in pops)
+    # conditions that already held when the search loop was entered (an early return for a blocked start) are not
+    # conditions of the iteration
+    gd = getattr(Lw, 'gdepth', 0)
+
+    def rel(s):
+        return list(s.guards[gd:])
+    uncond = all(len(rel(s)) == 1 and rel(s)[0] is Lw.test for s in pops)
     rep.add('A5', f, ENTRY, 'current cell leaves the open list and enters the closed list', Lw.node.lineno,
             len(opens) == 1 and len(closes) == 1 and uncond,
             'every iteration must unconditionally clear the open flag and set the closed flag of the popped cell '
@@ -700,7 +718,7 @@ def check_search(prog, rep, m, c):
                 out.append(a)
         return out
     s0 = byarr[gname][0]
-    guards = list(s0.guards)
+    guards = rel(s0)
     flat = []
     for g in guards:
         flat.extend(flatten_and([g]) if g[0] == 'and' else [g])
@@ -756,7 +774,7 @@ def check_search(prog, rep, m, c):
                 inb = 0 <= cy + dy <= 4 and 0 <= cx + dx <= 6
                 for x, cl, op, gn in ((0, 0, 0, 50), (1, 0, 0, 50), (0, 1, 0, 50), (0, 0, 1, 50), (0, 0, 1, 11), (0, 1, 1, 50), (1, 1, 1, 11)):
                     env = {**wenv, **env_for(cy, cx, dy, dx, x, cl, op, gn)}
-                    act = _all(s.guards, env)
+                    act = _all(rel(s), env)
                     # d = 10 + 3/2 = 11.5
                     want = inb and x == 0 and cl == 0 and (op == 0 or Fraction(23, 2) < gn)
                     if act != want:
@@ -799,9 +817,9 @@ def check_search(prog, rep, m, c):
             res = []
             for cy, cx, want in ((2, 3, True), (2, 4, False), (1, 3, False)):
                 env = {**wenv, **env_for(cy, cx, 1, 0, 0, 0, 0, 50, goal=(2, 3))}
-                callact = _all(rc[0][2], env)
-                relact = any(_all(s.guards, env) for s in relax)
-                retact = any(g and _all(g, env) for v, g in k.returns if g)
+                callact = _all(rc[0][2][gd:], env)
+                relact = any(_all(rel(s), env) for s in relax)
+                retact = any(_all(g[gd:], env) for v, g in k.returns if len(g) > gd)
                 res.append((callact, relact, retact, want))
             okg = all(ca == w and ra == w and (not w or not rl) for ca, rl, ra, w in res)
             whyg = 'at goal / beside goal: %s' % [(ca, rl, ra) for ca, rl, ra, w in res]
